@@ -137,12 +137,13 @@ def run(prop, tier, replay=None):
         module, cfg = "JobTrace.tla", "JobTrace.cfg"
     else:
         module, cfg = "JobMon.tla", "JobMon_%s.cfg" % prop
-    acc, rej, stats, total = vlib.validate_traces(module, cfg, tp, "val_" + prop, shards=12)
+    left = []
+    acc, rej, stats, total = vlib.validate_traces(module, cfg, tp, "val_" + prop, shards=12, leftover=left)
     if module == "JobTrace.tla":
         # rejected step by step: is it at least a behaviour of JobTask as far as can be seen from outside (the
         # calls on the child, hooks, handlers, functions run in the task, tickets resolving; the trace points
         # inside the task neither required nor believed)?
-        rej, explained = vlib.second_opinion("JobTraceObs.tla", "JobTraceObs.cfg", rej, "obs_" + prop)
+        rej, explained = vlib.second_opinion("JobTraceObs.tla", "JobTraceObs.cfg", rej, "obs_" + prop, leftover=left)
         acc += len(explained)
 
     with open(tp) as f:
